@@ -26,6 +26,7 @@ ABSTRACTS["AbsBipGraph"] = {
     "left_neighbors": ([INT], TList(INT), True),
     "has_edge": ([INT, INT], BOOL, False),
     "edges": ([], TList(TTuple([INT, INT])), False),
+    "is_bipartite": ([], BOOL, False),
 }
 ABS_ISINSTANCE = {"AbsBipGraph": ("BaseBipartiteGraph",)}
 # driver side: Lean parser (type `P <interface>`) per abstract interface; python encoders are in py2lean_selftest.py
@@ -86,6 +87,10 @@ EFFECTS = {
 FORMULA = TEffect("Formula", "PyF.FState")
 
 # constructors of interface objects: hand-written glue (lean/CnfgenModel/Vars/GenGlue.lean)
+# class methods that return their (graph) argument unchanged on the typed domain: the argument already is a cnfgen
+# graph object (the conversion of networkx graphs is outside the translation)
+IDENTITY_CALLS = ["BipartiteGraph.normalize", "Graph.normalize", "DirectedGraph.normalize"]
+
 ABS_CONSTRUCTORS = {
     "CompleteBipartiteGraph": ("Cnfgen.Vars.absCompleteBip", [INT, INT], TAbs("AbsBipGraph"), True),
 }
@@ -209,6 +214,7 @@ ITEMS = [
          "new_block": {"params": {"ranges": TList(INT), "label": ERASED}, "vararg": "ranges"},
          "new_binary_mapping": {"params": {"n": INT, "m": INT, "label": ERASED}},
          "new_mapping": {"params": {"n": INT, "m": INT, "label": ERASED}},
+         "new_sparse_mapping": {"params": {"B": TAbs("AbsBipGraph"), "label": ERASED}},
          "force_complete_mapping": [{"lean": "force_complete_mapping_unary", "params": {"f": TObj("UnaryMappingVariables")}},
                                     {"lean": "force_complete_mapping_binary", "params": {"f": TObj("BinaryMappingVariables")}}],
          "force_functional_mapping": [{"lean": "force_functional_mapping_unary", "params": {"f": TObj("UnaryMappingVariables")}}],
@@ -222,4 +228,6 @@ ITEMS = [
      "params": {"pigeons": INT, "holes": INT, "formula_class": TEffectClass("Formula")}},
     {"file": "cnfgen/families/pigeonhole.py", "function": "RelativizedPigeonholePrinciple", "property": "C01",
      "params": {"pigeons": INT, "resting_places": INT, "holes": INT, "formula_class": TEffectClass("Formula")}},
+    {"file": "cnfgen/families/pigeonhole.py", "function": "GraphPigeonholePrinciple", "property": "C01",
+     "params": {"G": TAbs("AbsBipGraph"), "functional": BOOL, "onto": BOOL, "formula_class": TEffectClass("Formula")}},
 ]
